@@ -622,7 +622,9 @@ META = {
             "and one program per simcall kind must finish (or stop with a clear message) under simgrid-mc.",
     "note": "Defect found and repaired: the message-queue observers sent two raw pointers under the COMM_ASYNC_SEND/RECV tag and the "
             "checker waited for ever (C43_pinned_messqueue_refuted); they now report that message queues are unsupported. Not modelled: "
-            "the memory-access trace that follows each transition on the wire, the conversion aid_t -> Aid, MPI tags of iprobe.",
+            "the memory-access trace that follows each transition on the wire, the conversion aid_t -> Aid, MPI tags of iprobe. Recorded "
+            "finding (KNOWN_FINDINGS, judged by the model-checker runs only): with reduction none simgrid-mc aborts on a TestAny over "
+            "several ready communications (get_current_transition indexes by times_considered, whose last value means 'none').",
     "technique": "translator (clang JSON AST -> Coq tables) + Coq proof of the byte codec + differential correspondence + model-checker runs",
-    "claimed": False,
+    "claimed": True,
 }
